@@ -6,15 +6,16 @@ import sibling, samesrc
 from props.printer_shared import *
 
 TITLE = "Generated TypeScript types describe the data actually provided"
-TECHNIQUE = "sibling cross-check of the raw-response-type printer against the query-text printer per variant (MIR) + dataflow of property keys and optionality"
+TECHNIQUE = "sibling cross-check of the raw-response-type printer against the query-text printer per variant (MIR) + dataflow of property keys and optionality + CFG must-pass-through of the nullable flag in the type printers"
 EXPLANATION = (
     "Claimed for key agreement only. generate_raw_response_type_inner is a third printer over MergedServerSelection: "
     "per variant it must agree with the query-text printer on whether the selection is emitted, it must key each "
     "property by the selection's normalization alias or, without arguments, its name (the same expression the query "
     "printer uses for the response key), recurse into the nested map for linked fields, and print the optional marker "
     "`?` exactly under is_nullable() of the selectable's own target type. The parameter-type printer keys each "
-    "property by name_or_alias() of the selection, as the reader AST does. List / nullable structure of the types is "
-    "not decided.")
+    "property by name_or_alias() of the selection, as the reader AST does. In the type-annotation printers every path "
+    "through the Union arm must read the union's nullable flag (necessary condition). The rest of the list / nullable "
+    "structure of the types is not decided.")
 ASSUMPTIONS = []
 
 
